@@ -935,9 +935,11 @@ def r_retry(ctx) -> RuleResult:
                     # after the accepting edge the candidate must not be reassigned before return: checked below
                     g.remove_edge(n, t)
         for n, vals in enforce_nodes.items():
-            if all(vals[k] for k in must):
+            # a test that comes out the same way on the whole domain of the property: its other edge is never taken there
+            dead = "false" if all(vals[k] for k in must) else "true" if not any(vals[k] for k in must) else None
+            if dead:
                 for _, t, d in list(g.out_edges(n, data=True)):
-                    if d.get("label") == "false":
+                    if d.get("label") == dead:
                         g.remove_edge(n, t)
         import networkx as nx
         reach = rn in nx.descendants(g, cfg.ENTRY)
@@ -1488,11 +1490,67 @@ def r_ownfirst(ctx) -> RuleResult:
                 return resolve(d, depth + 1)
         return e
 
+    def expand(e, depth=0) -> str:
+        """source text of e with local aliases (names bound once to an attribute / call chain) written out"""
+        import re as _re
+        txt = norm(e)
+        for _ in range(4):
+            changed = False
+            for nm in {x.id for x in ast.walk(ast.parse(txt, mode="eval")) if isinstance(x, ast.Name)} - {g, atom, attr}:
+                d = single_def(kf.node, nm)
+                if d is not None and isinstance(d, (ast.Attribute, ast.Subscript, ast.Call)) and not any(isinstance(x, (ast.ListComp, ast.GeneratorExp)) for x in ast.walk(d)):
+                    t2 = _re.sub(rf"\b{nm}\b", norm(d), txt)
+                    if t2 != txt:
+                        txt, changed = t2, True
+            if not changed:
+                break
+        return txt
+
     def own_value(e) -> bool:
         e = resolve(e)
-        return norm(e) in (f"{g}.nodes[{atom}][{attr}]", f"{g}.nodes[{atom}].get({attr})", f"{g}.nodes({attr})[{atom}]", f"{g}.nodes.data({attr})[{atom}]")
+        return expand(e) in (f"{g}.nodes[{atom}][{attr}]", f"{g}.nodes[{atom}].get({attr})", f"{g}.nodes({attr})[{atom}]", f"{g}.nodes.data({attr})[{atom}]",
+                             f"{g}.nodes(data={attr})[{atom}]", f"{g}.nodes.data({attr})[{atom}]", f"{g}._node[{atom}][{attr}]")
+
+    def inplace_sorted(name: str):
+        """None: the list called `name` is sorted in place (plain .sort()) before the return; else why not"""
+        sorts = [x for x in own_walk(kf.node) if isinstance(x, ast.Call) and isinstance(x.func, ast.Attribute) and x.func.attr == "sort"
+                 and isinstance(x.func.value, ast.Name) and x.func.value.id == name]
+        if not sorts:
+            return "no sort"
+        if any(kwarg(x, "key") is not None for x in sorts):
+            return "sorted with a key function"
+        c2 = cfg_of(kf.node)
+        rn = c2.node_of(rets[0])
+        if not any(c2.dominates(c2.stmt_node_containing(x), rn) for x in sorts):
+            return "sorted on some paths only"
+        return None
+
+    def plain_neighbour_values(inner) -> Optional[str]:
+        if isinstance(inner, (ast.ListComp, ast.GeneratorExp)) and len(inner.generators) == 1 and not inner.generators[0].ifs:
+            gen = inner.generators[0]
+            it = expand(gen.iter)
+            tv = gen.target.id if isinstance(gen.target, ast.Name) else None
+            if it in (f"{g}.neighbors({atom})", f"{g}[{atom}]", f"{g}.adj[{atom}]", f"nx.neighbors({g}, {atom})") and tv and \
+                    expand(inner.elt) in (f"{g}.nodes[{tv}][{attr}]", f"{g}.nodes[{tv}].get({attr})"):
+                return None
+            return f"neighbour values come from `{it}` / `{norm(inner.elt)}`"
+        return "unrecognised sequence"
 
     def sorted_neighbours(e) -> Optional[str]:
+        if isinstance(e, ast.Name):
+            # a list filled by a comprehension and then sorted in place
+            why_ = inplace_sorted(e.id)
+            if why_ is None:
+                defs_ = [getattr(d, "value", None) for d in assigned_names(kf.node).get(e.id, [])]
+                if len(defs_) == 1 and defs_[0] is not None:
+                    pv = plain_neighbour_values(defs_[0])
+                    if pv is None:
+                        return None
+                    if pv != "unrecognised sequence":
+                        return pv
+                    raise AnalysisError(f"R-OWNFIRST: cannot see what the list `{e.id}` holds before it is sorted")
+            elif why_ != "no sort":
+                return why_
         e = resolve(e)
         if isinstance(e, ast.Call) and isinstance(e.func, ast.Name) and e.func.id in ("tuple", "list", "reversed") and e.args:
             return sorted_neighbours(e.args[0])
@@ -1502,15 +1560,10 @@ def r_ownfirst(ctx) -> RuleResult:
             if kwarg(e, "key") is not None:
                 return "sorted with a key function"
             inner = resolve(e.args[0])
-            if isinstance(inner, (ast.ListComp, ast.GeneratorExp)) and len(inner.generators) == 1 and not inner.generators[0].ifs:
-                gen = inner.generators[0]
-                it = norm(gen.iter)
-                tv = gen.target.id if isinstance(gen.target, ast.Name) else None
-                if it in (f"{g}.neighbors({atom})", f"{g}[{atom}]", f"{g}.adj[{atom}]", f"nx.neighbors({g}, {atom})") and tv and \
-                        norm(inner.elt) in (f"{g}.nodes[{tv}][{attr}]",):
-                    return None
-                return f"neighbour values come from `{it}` / `{norm(inner.elt)}`"
-            return "sorted over an unrecognised sequence"
+            pv = plain_neighbour_values(inner)
+            if pv == "unrecognised sequence":
+                raise AnalysisError(f"R-OWNFIRST: cannot see what `{short(inner)}` (sorted into the refinement key) holds")
+            return pv
         return "neighbour values are not sorted"
 
     # accepted shapes: tuple([own] + nbrs), (own, *nbrs), tuple([own, *nbrs]), [own] + nbrs, (own,) + tuple(nbrs)
@@ -1633,8 +1686,10 @@ def r_failsites(ctx) -> RuleResult:
         for x in own_walk(fn):
             if isinstance(x, ast.Raise):
                 n += 1
-                res.inst(fi.fq, short(x), "fail")
-                res.fail(Finding("R-FAILSITES", fi.module.rel, fi.qualname, norm(x), "the identifier pipeline can reject a molecule with an exception", line=x.lineno))
+                out_of_domain = _raise_outside_domain(ctx, fi, x)
+                res.inst(fi.fq, short(x), "ok" if out_of_domain else "fail", detail=out_of_domain or "")
+                if not out_of_domain:
+                    res.fail(Finding("R-FAILSITES", fi.module.rel, fi.qualname, norm(x), "the identifier pipeline can reject a molecule with an exception", line=x.lineno))
             elif isinstance(x, ast.Assert):
                 n += 1
                 ok, why = _assert_discharged(ctx, fi, x)
@@ -1655,6 +1710,50 @@ def r_failsites(ctx) -> RuleResult:
     res.counts = {"functions": len(fis), "sites": n}
     res.notes.append("index / key errors inside the pipeline are not decided here (enumerated only through R-BIJ, R-KEYS, R-ATTRREAD)")
     return res
+
+
+def _raise_outside_domain(ctx, fi: FuncInfo, r: ast.Raise) -> Optional[str]:
+    """why the raise cannot be reached for a molecule with at least one atom passed as a graph (the property's domain), or None:
+    its guards hold only for an empty molecule / collection (evaluated with the size set to 1, 2 and 5000), or test the
+    argument's type"""
+    from ..concrete import ceval
+    from .common import parent_map
+    pm = parent_map(fi.node)
+    guards = []
+    cur, child = pm.get(r), r
+    while cur is not None and cur is not fi.node:
+        if isinstance(cur, ast.If):
+            in_body = any(child is b_ or any(z is child for z in ast.walk(b_)) for b_ in cur.body)
+            guards.append((cur.test, in_body))
+        elif isinstance(cur, (ast.For, ast.While, ast.Try, ast.With)):
+            pass
+        child, cur = cur, pm.get(cur)
+    # guard clause form:  if ok: return ...  (earlier at the same level) is not read; only enclosing tests are
+    if not guards:
+        return None
+    params = set(params_of(fi.node))
+    for test, pol in guards:
+        size_calls = {}
+        for z in ast.walk(test):
+            if isinstance(z, ast.Call) and ((isinstance(z.func, ast.Name) and z.func.id == "len" and len(z.args) == 1) or
+                                            (isinstance(z.func, ast.Attribute) and z.func.attr in ("number_of_nodes", "order", "__len__") and not z.args)):
+                size_calls[norm(z)] = z
+        if size_calls:
+            try:
+                vals = [bool(ceval(test, {}, {k: n_ for k in size_calls})) for n_ in (1, 2, 5000)]
+            except Exception:
+                continue
+            if all(v != pol for v in vals):
+                return f"guarded by `{short(test, 50)}`: reachable for an empty molecule only"
+        t = test
+        neg = False
+        while isinstance(t, ast.UnaryOp) and isinstance(t.op, ast.Not):
+            t, neg = t.operand, not neg
+        if isinstance(t, ast.Name) and t.id in params and (neg == pol):
+            return f"guarded by `{short(test, 50)}`: reachable for an empty argument only"
+        if isinstance(t, ast.Call) and isinstance(t.func, ast.Name) and t.func.id == "isinstance" and t.args and isinstance(t.args[0], ast.Name) and t.args[0].id in params and (neg == pol):
+            return f"guarded by `{short(test, 50)}`: a type check of the argument"
+    return None
 
 
 def _is_size_guard(test: ast.expr) -> bool:
